@@ -18,6 +18,7 @@ const ENTRY_MENU = [
   // keys that are not identifiers or strings in the source: numeric, computed string literal; a member without annotation
   { name: '1', key: '1', kind: 'prop', optional: false, type: 'string', special: true },
   { name: 'ck', key: "['ck']", kind: 'prop', optional: true, type: 'number', special: true },
+  { name: 'tk-x', key: '[`tk-x`]', kind: 'prop', optional: false, type: 'string', special: true },
   { name: 'na', kind: 'prop', optional: true, type: null },
   // names that collide with Object.prototype members, reserved words, non-ASCII identifiers (`__proto__` is left out:
   // in an object literal it is not a property at all)
